@@ -13,7 +13,9 @@ LEVEL = 'exploration'
 ENGINE = 'E1'
 TECHNIQUE = ('bounded-exhaustive enumeration of all strings of length <= 4 (thorough 5) over an 11-token adversarial '
              'alphabet, placed as key / nested key / value / array element, through the real prettyPrint and end-to-end '
-             'through parsePEL, -l, -a, -f and -j; oracle = json.loads round trip with order-preserving equality')
+             'through parsePEL, -l, -a, -f and -j, plus 36 JSON numbers at the edges of what a document can hold (overflow, NaN, '
+             'Infinity, huge integers) through the built-in format and the shipped plug-in; oracle = RFC 8259 round trip with '
+             'order-preserving equality')
 LEVEL_TEXT = ('Every string over the token alphabet (quote, colon, backslash, braces, bracket, comma, blank, letter, '
               'non-ASCII, newline) up to the bound is placed in each syntactic position of a document, printed by the real '
               'aligner at both column settings and parsed back; the text may differ from json.dumps only by blanks. The same '
